@@ -835,7 +835,15 @@ def run(ctx):
                 'elements (1 == True == 1.0, tuples), random mappings over 10 keys, 5-6 derived keys with random (a)cyclic graphs whose parameters are all required or a mix of the four kinds '
                 '(defaulted ones also naming nothing), *args / **kwargs, functions / callable objects / partials, shadowing and plain keywords in seeded random orders, judged by Trace_Algebra.  Non-trivial = intersection neither '
                 'empty nor everything / selection that removes some but not all keys / overlapping update / renaming that renames / '
-                'acyclic graph with >= 1 dependency among definitions; distinct by abstract input.')
+                'acyclic graph with >= 1 dependency among definitions; distinct by abstract input.  '
+                'VALUES THAT ARE MAPPINGS: every mapping over 3 keys with >= 1 nested value x every other mapping (flat / nested values) through d + other and d | other, the nested values of d '
+                'realised by every dict class (dict, dictattr, Dict, OrderedDict, defaultdict, subclasses of Dict / dictattr; quick: two of the seven per case), d and other compared DEEPLY before / after.  '
+                'SESSIONS (MC_AlgebraSes; law: a call has no memory and owns nothing of the caller): histories call ; edit ; call on the SAME objects, enumerated by TLC with the outcome expected for the '
+                'objects as they are at that moment - (a) one ulist: u fn x / ulist(w) fn u / e in u ; the owner edits u in place through the list API keeping it duplicate-free (u[i] = v, append, pop, '
+                'pop + append, reverse, del, clear, insert) or edits the RESULT in place ; any call; (b) the caller\'s d, e (two receivers of different classes, nested values in every realisation), key list K, '
+                'other mapping O, renaming dict M: r - K, r & K, r[K], r[tuple(K)], r + O, r | O, r.keys(), r.relabel(M, **individual) ; the owner edits d / O / M / K or the RESULT ; any call; after EVERY step all '
+                'five objects are compared with what the specification says they hold (clauses d_modified, argument_changed, result_aliases_*).  Thorough: 1 == True among the elements, more '
+                'classes / edits, and TLC-simulated free sessions of 7 steps.  C2S: random sessions of 3-12 steps on both families judged step by step by Trace_Algebra (JudgeU / JudgeM).')
     ctx.mc('MC_Algebra', 'MC_Algebra_quick.cfg' if ctx.quick else 'MC_Algebra_thorough.cfg')
     if not ctx.quick:
         # mechanisms that order the evaluation by the required / by the positional parameters only do not implement the law
@@ -853,7 +861,7 @@ def run(ctx):
     if not ctx.quick:
         ctx.mc('MC_AlgebraSes', 'MC_AlgebraSes_memo.cfg', must_fail='MemoIsMembers', coverage=False)
         ctx.mc('MC_AlgebraSes', 'MC_AlgebraSes_adopt.cfg', must_fail='CallsOwnNothing', coverage=False)
-        sim = sorted(ctx.generate('MC_AlgebraSes', 'MC_AlgebraSes_sim.cfg', simulate=10000, depth=12, seed=ctx.seed + 16),
+        sim = sorted(ctx.generate('MC_AlgebraSes', 'MC_AlgebraSes_sim.cfg', simulate=1500, depth=12, seed=ctx.seed + 16),
                      key=lambda c: json.dumps(c, sort_keys=True))
         s2c_sessions(ctx, log, sim, all_nests=False)
     c2s_useq(ctx, log, 500 if ctx.quick else 6000)
@@ -865,7 +873,11 @@ def run(ctx):
     ctx.exhaustive = False
     ctx.assumptions += [
         'elements are hashable values without NaN; "duplicate" and "equal" are Python ==, so 1, True and 1.0 are one element',
-        'mapping keys are identifier-like strings without ".", without a leading "_" and not names of dict/dictattr attributes; values are flat (None, numbers, strings, lists, tuples): Dict + other with nested dicts is the deep merge of C15',
+        'mapping keys are identifier-like strings without ".", without a leading "_" and not names of dict/dictattr attributes; values are flat (None, numbers, strings, lists, tuples) or non-empty mappings of flat values (two levels in the sessions), realised by any dict class on the side of d; '
+        'named deviation DictPlusIsTreeUpdate: where BOTH d and other hold a mapping under a key, Dict + other (tree_update) holds their recursive merge (the law of C15) while dictattr + other and every d | other hold other\'s value ({**d, **o}); '
+        'the nested values of `other` are plain dicts (tree_update treats another dict class on the update side as a leaf, which the two statements do not settle)',
+        'sessions: the owner\'s in-place edits of a ulist keep it duplicate-free (OwnerKeepsUnique - list.append of a duplicate is outside the property); sharing VALUE objects between d and a result is what {**d, **o} means, so results are only edited at their top level; '
+        'relabel in sessions is spelled with the dict M plus individual keywords, collision-free',
         'relabel is exercised with collision-free renamings: individual keyword relabels alone, and a blanket rule (prefix "x_", suffix "_x", dict, callable) alone or TOGETHER WITH individual keyword relabels, which then win for the keys they name; the positional-list spelling is not',
         'definitions handed to Dict.__call__ never take their own key as a parameter (that means "previous value" in the code); parameters WITHOUT a default only name what the mapping or another definition provides; a parameter called "key" is only used when the mapping has an entry "key" (the code passes a hidden key=<name> otherwise)',
         'every NAMED parameter of a definition - with or without a default, positional or keyword-only - is an argument taken by name from the mapping and an edge of the dependency graph; the default is what arrives only when nobody provides the name.  What arrives in *args / **kwargs is not judged',
